@@ -412,8 +412,12 @@ def resize_image_to_macro_block(
 
 
 def _load_images(frames_dir: str) -> list:
+    # Frame numbers are only zero-padded to two digits, so the names must be
+    # sorted by length first ("frame_100.png" comes after "frame_99.png").
     frames = [
         os.path.join(frames_dir, frame)
-        for frame in sorted(os.listdir(frames_dir))
+        for frame in sorted(
+            os.listdir(frames_dir), key=lambda name: (len(name), name)
+        )
     ]
     return [imageio.imread(frame) for frame in frames]
